@@ -36,6 +36,14 @@ func transportGoroutines() int {
 // limit), releases, waits for the results, then closes the transport with `late` further queries in flight
 // on silent connections and checks that everything is released.
 func Burst(pipeline bool, limit, n, late int) BurstResult {
+	// goroutines of the transport package that are still around from whatever this process did before (another
+	// harness part whose clean-up is not through yet) are not this burst's: wait for them to settle and count
+	// from there
+	base := transportGoroutines()
+	for settle := time.Now().Add(time.Second); base > 0 && time.Now().Before(settle); {
+		time.Sleep(5 * time.Millisecond)
+		base = transportGoroutines()
+	}
 	plans := make([]ConnPlan, 0, n+late+2)
 	for i := 0; i < n+2; i++ {
 		plans = append(plans, ConnPlan{Dial: "ok", Answer: 1 << 20, After: "healthy", HoldAll: true})
@@ -88,13 +96,16 @@ func Burst(pipeline bool, limit, n, late int) BurstResult {
 			res.Blocked++
 		}
 	}
-	deadline := time.Now().Add(2 * time.Second)
+	deadline := time.Now().Add(10 * time.Second) // only "never" matters; the machine may be busy
 	for {
-		res.Leaked = transportGoroutines()
-		if res.Leaked == 0 || time.Now().After(deadline) {
+		res.Leaked = transportGoroutines() - base
+		if res.Leaked <= 0 || time.Now().After(deadline) {
 			break
 		}
 		time.Sleep(2 * time.Millisecond)
+	}
+	if res.Leaked < 0 {
+		res.Leaked = 0
 	}
 	w.mu.Lock()
 	for _, c := range w.Conns {
